@@ -1277,6 +1277,12 @@ class Worker:
         fired2 = 0
         doc_altered = []
         later = []
+        # what an undisturbed restore of this document serialises to (the yardstick for restores made after an abort)
+        try:
+            _dg0, t0_, _md0 = self.model_state(self._call(lambda: cls.from_dict(json.loads(base_txt))))
+            ref_restore = json.dumps(json.loads(t0_), sort_keys=True) if t0_ is not None else None
+        except Exception:  # noqa: BLE001
+            ref_restore = None
         for k in points(n2):
             d = json.loads(base_txt)
             mon, _res, _err = seams.run_with_abort(lambda: self._call(lambda: cls.from_dict(d)), k, exc)
@@ -1294,11 +1300,11 @@ class Worker:
                     paths = ["unserialisable"]
                 doc_altered.append({"k": k, "where": mon.where, "paths": paths})
                 continue
-            if slot.fam != "caltrack" or fired2 <= 3:
+            if ref_restore is not None and (slot.fam != "caltrack" or fired2 <= 3):
                 try:
                     again = self._call(lambda: cls.from_dict(json.loads(base_txt)))
                     _dg, t2, md = self.model_state(again)
-                    same = t2 is not None and json.dumps(json.loads(t2), sort_keys=True) == ref
+                    same = t2 is not None and json.dumps(json.loads(t2), sort_keys=True) == ref_restore
                     if not same:
                         later.append({"k": k, "where": mon.where, "got": md})
                 except Exception as e:  # noqa: BLE001
